@@ -73,10 +73,12 @@ MANIFEST_META = {
              'service and its answer is sent unchanged; Server.handle turns every RequestError of parser or handler into e.render(); '
              'RequestError.render delegates to the handler of the request, sends the raw message only with the default text/plain '
              'type, and marks every error answer not cacheable. escape_html\'s character-level postcondition is a BOUNDED check '
-             '(replace chains are undecided in z3 and cvc5).',
+             '(replace chains are undecided in z3 and cvc5). Response.__call__: status and headers are sent once, after the body is '
+             'settled; a seekable file body is measured (Content-length = position at EOF) and rewound; exactly a non-empty text body '
+             'is encoded.',
         note='the universal claim "returns a complete response without raising for any request whatsoever" (whole-program '
              'exception freedom across dynamic dispatch, templates, PIL decoders), image decodability, XML well-formedness of '
-             'rendered templates and Response.__call__ Content-length are NOT covered'),
+             'rendered templates are NOT covered'),
     'C09': dict(
         text='Proof that the paths built from numbers stay below their root: compact bundle file = cache_dir/L<z>/R<r>C<c> (two '
              'safe segments, string lemma), lock file = lock_dir/<cache id>-x-y-z.lck (one segment; injective for non-negative '
@@ -105,7 +107,10 @@ MANIFEST_META = {
              'statement "equal paths => equal addresses" is assembled from proved lemmas by hand (the single SMT query stays '
              'unknown); quadkey layout only bounded (C09); sqlite / geopackage backends: level dispatch, bulk load (parameter list = '
              'wanted addresses, chunks of whole triples within the SQLite limit, rows matched by (column, row, level)) are under '
-             'contract - defects S1, S2 found there and repaired; the SQL text itself and redis/s3/azure/couchdb are outside'),
+             'contract - defects S1, S2 found there and repaired; single operations: _store_bulk builds one record (level, column, row, '
+             'bytes of that tile) per tile and inserts them with a column list in that order, load_tile / remove_tile are parameterised with '
+             'tile.coord in the order of their WHERE columns (literal SQL text is inspected, its execution by sqlite is assumed); '
+             'redis/s3/azure/couchdb are outside'),
     'C06': dict(
         text='Proof of crash conditions in the file model: after EVERY write inside compact v2 _store_tile (including a torn '
              'payload write of any length) every slot is either unchanged (entry, record bytes, size field, in-file) or - the '
@@ -148,10 +153,13 @@ MANIFEST_META = {
              'whole meta-aligned block between the corners of the bbox, row by row, None outside the grid; in '
              'TileWalker._walk (all paths of one loop iteration) a non-intersecting sub tile is neither recursed into nor '
              'processed, recursion uses the limited bbox, level+1 and all_subtiles == (intersection == CONTAINS), and a '
-             'StopProcess out of the recursion leaves the interrupted sub tile on the progress path.',
+             'StopProcess out of the recursion leaves the interrupted sub tile on the progress path; _filter_subtiles gives one answer per '
+             'sub tile in order and drops a sub tile only if the task does not intersect its meta-tile bbox (Seed/CleanupTask.intersects: '
+             'CONTAINS / INTERSECTS / NONE in the grid SRS); walk() starts at the extent of the task coverage with all levels unless the saved '
+             'progress says done; seed_task configures the walker from the task (uncached / stale / all).',
         note='the whole-traversal conclusion (every selected tile requested, union of interrupted runs) is a stated lemma over '
              'these per-step facts, not a mechanised induction; worker processes, coverage geometry predicates, '
-             '_filter_subtiles, the duplicate filter and the progress-file pickle round trip are outside; step_down is '
+             'the duplicate filter and the progress-file pickle round trip are outside; step_down is '
              'inlined through an @contextmanager split'),
     'C15': dict(
         text='Proof for EVERY arrival order (an arbitrary injective index sequence of unbounded length, no enumeration): '
@@ -159,10 +167,11 @@ MANIFEST_META = {
              'and keeps exactly the not-yet-contiguous ones stashed (inductive invariants over the dict and the yielded '
              'sequence; lemma: if the available indices are [n0, N) then all N - n0 results come out); ThreadWorker.run '
              'queues exactly one result per task, carrying the task\'s own id, BEFORE task_done(); the sequential branch '
-             'yields one result per item and re-raises in raise mode.',
+             'yields one result per item and re-raises in raise mode; _fetch_results hands on each queued result once, as it came, and '
+             're-raises a failure only in raise mode after a forced shutdown; shutdown queues one stop sentinel per worker.',
         note='queue and thread timing are assumed (FIFO queue stubs, no scheduling explored); termination/liveness of the '
-             'empty() polling, _fetch_results and shutdown are not under contract (map_each pooled branch, starmap, _single_call, '
-             '_result_iter are); defects S13, S14 (size-1 pool swallowed exceptions) found and repaired'),
+             'empty() polling and imap/map (star-args) are not under contract (map_each pooled branch, starmap, _single_call, '
+             '_result_iter, _fetch_results, shutdown are); defects S13, S14 (size-1 pool swallowed exceptions) found and repaired'),
     'C10': dict(
         text='Proof of the authorization decision logic and call-site conditions on the real code: tile services '
              '(TMS/WMTS/KML authorize_tile_layer) return normally only without a callback, for \'full\', or for '
@@ -210,9 +219,12 @@ MANIFEST_META = {
              'MapQuery.dimensions_for_params returns exactly the dimensions whose lower-cased name is a configured parameter '
              '(proof + bounded twin); WMSClient._query_req copies the template and sets bbox/size/srs code/format of the query plus '
              'exactly the forwarded dimensions; TiledSource.get_map refuses sizes/resolutions the grid does not have; WMSSource.get_map '
-             'declares a request blank only outside its coverage/resolution range and applies colour key and opacity of the source.',
+             'declares a request blank only outside its coverage/resolution range and applies colour key and opacity of the source; '
+             'WMSClient.retrieve makes exactly one request built from this query and format (GET/POST as configured, under the configured '
+             'concurrency limit) and accepts the answer only as image/*; WMSInfoClient asks in a supported SRS (else with the transformed '
+             'query) and sends bbox/size/pixel/SRS code of that query.',
         note='SRS equality is treated as identity of opaque objects; URL assembly, reprojected bbox accuracy, '
-             'best_srs/preferred_src and WMSClient.retrieve (URL text) are not under contract; opaque-callee '
+             'best_srs/preferred_src and the URL text (complete_url) are not under contract; opaque-callee '
              'assumption'),
     'C20': dict(
         text='Proof on the real code: Response.make_conditional answers 304 (no body, no Content-type) when If-None-Match '
@@ -245,7 +257,8 @@ MANIFEST_META = {
              'the format, range and dimension checks precede the single tile-manager access, which receives the validated '
              'coordinate and the checked dimensions; CacheMapLayer._image refuses columns x rows >= max_tile_limit before any '
              'load; WMSServer.check_map_request refuses width x height > max_output_pixels; tile lists never contain an '
-             'out-of-grid address (_create_tile_list, _meta_tile_list).',
+             'out-of-grid address (_create_tile_list, _meta_tile_list); WMS request validation: an accepted request has a bbox with positive '
+             'extent, a configured format and SRS, only configured layers; WMTS: parsed first, configured layer and a tile matrix set of it.',
         note='opaque-callee assumption for the trace conditions; HTTP status/body rendering, WMS-C and the request '
              'parsers\' regular expressions are outside (levels reach the services as int(...) of \\d+ groups)'),
     'C04': dict(
@@ -273,7 +286,9 @@ MANIFEST_META = {
              'or before the threshold, fresh after it -- outside known finding S10), is_stale <=> exists and not fresh, '
              'a refresh rule takes precedence and is re-evaluated on every call (frame: nothing cached in the manager), '
              'a fresh tile causes no upstream request, a failed refresh stores/removes nothing; file-cache metadata comes '
-             'from lstat of the tile\'s own location.',
+             'from lstat of the tile\'s own location; before_timestamp_from_options: an explicit time wins, else the mtime of the named '
+             'file, else now minus the given units (each from its own key, 0 if absent); seed_task hands the refresh timestamp of the task '
+             'to its tile manager.',
         note='wall-clock functions (mktime, time zones), sqlite timestamp resolution and the seed-task path are outside; '
              'timestamps assumed non-negative; known finding S10 (sub-second window)'),
     'C03': dict(
